@@ -107,20 +107,25 @@ def run (k : Nat) (m : CallMon) : List Ev → Except String CallMon
     | .ok m' => run k m' es
     | .error c => .error c
 
+/-- The end-of-life checks for a call that was lowered: `(violated?, class)` in reporting order. -/
+def completeChecks (area : Bool) (m : CallMon) : List (Bool × String) :=
+  [ (!m.called, "call-order"),
+    (!resolvedKnown m, "handle-unresolved-at-end"),
+    (m.listsFreed != 1, "lists-never-freed"),
+    ((m.ownsReleased == 1) != (m.reported == STARTED_CANCELLED), "owns-released-not-cancelled-before-start"),
+    ((m.lifted == 1) != (m.reported == RETURNED), "lift-not-returned"),
+    (m.lifted != m.rdrops, "lift-result-drop"),
+    (m.handle != 0 && m.handleDrops != 1, "handle-never-dropped"),
+    (area && m.areaFreed != 1, "area-never-freed"),
+    (m.registered, "cancel-left-registered") ]
+
 /-- End-of-life clause: once the call's future is gone (completed or dropped) everything it owned
 has been released exactly once.  `area` = the call has a non-empty params/results area. -/
 def complete (area : Bool) (m : CallMon) : Except String Unit :=
   if !m.created then .ok () else
   if !m.lowered then (if m.pdrops = 1 then .ok () else .error "lists-param-never-dropped") else
-  if !m.called then .error "call-order" else
-  if !resolvedKnown m then .error "handle-unresolved-at-end" else
-  if m.listsFreed ≠ 1 then .error "lists-never-freed" else
-  if (m.ownsReleased == 1) != (m.reported == STARTED_CANCELLED) then .error "owns-released-not-cancelled-before-start" else
-  if (m.lifted == 1) != (m.reported == RETURNED) then .error "lift-not-returned" else
-  if m.lifted ≠ m.rdrops then .error "lift-result-drop" else
-  if m.handle ≠ 0 && m.handleDrops ≠ 1 then .error "handle-never-dropped" else
-  if area && m.areaFreed ≠ 1 then .error "area-never-freed" else
-  if m.registered then .error "cancel-left-registered" else
-  .ok ()
+  match (completeChecks area m).find? (·.1) with
+  | some (_, cls) => .error cls
+  | none => .ok ()
 
 end Witverif.Async.SubtaskSpec
